@@ -28,6 +28,10 @@ CLAIMED = {
          PBT + ": generated schedules on a harness-owned single-threaded executor (schedule = generated value; wakers honoured; quiescence = deterministic deadlock verdict); oracle = tag echo per message-id, id freshness, all resolved at quiescence",
          "The real Session over an in-memory transport is driven by an executor whose every step (poll a woken task, release the next reply in a generated permutation, inject a stray reply, let one gated send through) is chosen by a generated schedule; reply futures live in separate tasks, joined groups or sequential groups. Checks fresh message-ids, that each caller gets the reply tagged for its id, nobody waits forever, strays are never delivered, and a further request still works.",
          "Single OS thread: all poll-level interleavings reachable, races inside tokio::sync::Mutex itself are not. Requests are issued by one task (rpc takes &mut self)."),
+ "C06": ("exploration", "DESIGN.md section 3 C06",
+         PBT + ": generated chunk plans executed by scripted peers on the three REAL transports over loopback (tokio-rustls server, russh server with exact channel-data packets, child process for the local CLI); oracles = delivered payloads vs sent payloads, and promptness judged against the instant the peer itself sent further traffic",
+         "Sessions over real TLS, SSH and local-CLI transports; the peer writes the hello and the concatenated replies of 1..4 pipelined requests per round in units cut at generated positions, with forced cuts at every offset inside ]]>]]>, several messages per unit and delimiter look-alikes in payloads. Every caller must get exactly its payload, before the peer had to send further traffic (the peer nudges only after 1.5 s without client progress and records it). All five in-delimiter offsets on every transport are fixed cases. Failures must reproduce on an immediate second run.",
+         "TLS and pipe read boundaries can only be encouraged, not forced (SSH packets are exact). Real time is involved; a timeout alone is never a verdict, the peer's own nudge mark is."),
  "C08": ("exploration", "DESIGN.md section 3 C08",
          PBT + ": grammar-generated rpc-reply documents for every operation over an in-memory session; bounded-exhaustive enumeration of all child sequences of length <= 3; oracle = document content vs result",
          "Generated-input search over the reply grammar of every operation (EmptyReply, DataReply, BareReply, load-configuration results): any number/order/severity of rpc-error combined with any positive indication at every grammar position. All child sequences up to length 3 are enumerated completely, longer ones sampled. Establishes the property for the enumerated sub-space and gives high confidence beyond it; not a proof.",
